@@ -1185,6 +1185,9 @@ class Interp:
         return self.call_native(fn, args, kwargs)
 
     def call_native(self, fn, args, kwargs):
+        if fn in (enumerate, zip, reversed, iter, itertools.chain, itertools.zip_longest) and any(isinstance(a, PObj) for a in args):
+            # iteration helpers over an object of an interpreted class (a typed list, ...): its elements as the interpreter iterates them
+            args = [list(self.iterate(a)) if isinstance(a, PObj) else a for a in args]
         allv = args + list(kwargs.values())
         if isinstance(getattr(fn, "__self__", None), (bytes, bytearray)) and getattr(fn, "__name__", "") == "join" and len(args) == 1 and not kwargs:
             items = [self.unbase(x) for x in self.iterate(args[0])]
@@ -1224,6 +1227,20 @@ class Interp:
             or isinstance(getattr(fn, "__func__", fn), types.FunctionType) and getattr(fn, "__func__", fn).__code__.co_filename.startswith(VERIF_DIR)  # contract-level helper / model object written in Python (never a library function)
         )
         if shape_only or all(self.concrete(a) for a in allv):
+            if isinstance(slf, dict) and fn.__name__ in ("get", "pop", "setdefault", "__getitem__", "__contains__") and args and isinstance(args[0], PObj) and not args[0].has_base:
+                # a key that is an object of an interpreted class: found through its own __hash__ / __eq__ (like the subscript forms)
+                self.hash_(args[0])
+                x = self.find_key(slf, args[0])
+                if fn.__name__ == "__contains__":
+                    return x is not PClass.MISSING
+                if x is PClass.MISSING:
+                    if fn.__name__ == "setdefault":
+                        slf[args[0]] = args[1] if len(args) > 1 else None
+                        return slf[args[0]]
+                    if fn.__name__ == "__getitem__" or (fn.__name__ == "pop" and len(args) < 2):
+                        raise PyRaise(KeyError(args[0]))
+                    return args[1] if len(args) > 1 else None
+                return slf.pop(x) if fn.__name__ == "pop" else slf[x]
             if isinstance(slf, dict) and fn.__name__ in ("get", "pop", "setdefault", "__getitem__") and args and not self.concrete(args[0]):
                 raise Unsupported("symbolic key into a concrete dict")
             try:
